@@ -75,7 +75,7 @@ def parseOp (line : String) : Op :=
           else if op == "lc" then (if a0.get 0 == 'p' then .uLc dst (regNum a0) else .bLc dst (regNum a0))
           else .bad line
         else if k == 'p' then
-          if ["coefs", "nats", "ints", "str", "zero", "one"].contains op then .uCtor dst idx op a0
+          if ["coefs", "nats", "ints", "str", "zero", "one", "regs", "ideal"].contains op then .uCtor dst idx op (if a0 == "" then "-" else a0)
           else if ["plus", "minus", "times"].contains op then .uBin dst op (regNum a0) (regNum a1)
           else if ["neg", "normalize", "copy", "lt"].contains op then .uUn dst op (regNum a0)
           else if op == "scale" then .uScale dst (regNum a0) (regNum a1)
@@ -84,7 +84,7 @@ def parseOp (line : String) : Op :=
           else if op == "interp" then .uInterp dst idx (regNums a0) (regNums a1)
           else .bad line
         else if k == 'q' then
-          if ["map", "nats", "ints", "str", "zero"].contains op then .bCtor dst idx op a0
+          if ["map", "nats", "ints", "str", "zero", "regs"].contains op then .bCtor dst idx op a0
           else if ["plus", "minus", "times"].contains op then .bBin dst op (regNum a0) (regNum a1)
           else if ["neg", "normalize", "copy", "lt"].contains op then .bUn dst op (regNum a0)
           else if op == "scale" then .bScale dst (regNum a0) (regNum a1)
@@ -140,6 +140,7 @@ def parseOp (line : String) : Op :=
         else if op == "isreduced" then .iPred "reduced" (regNum a0)
         else if op == "minimize" then .iXform "minimize" (regNum a0)
         else if op == "reducebasis" then .iXform "reduce" (regNum a0)
+        else if op == "quotient" then .iXform "quotient" (regNum a0)
         else if op == "obs" then .iObs (regNum a0)
         else .bad line
       else .bad line
